@@ -16,6 +16,7 @@ import (
 	cmtproto "github.com/cometbft/cometbft/proto/tendermint/types"
 
 	sdkmath "cosmossdk.io/math"
+	storetypes "cosmossdk.io/store/types"
 
 	"github.com/cosmos/cosmos-sdk/client/tx"
 	codectypes "github.com/cosmos/cosmos-sdk/codec/types"
@@ -174,6 +175,7 @@ type c17Plan struct {
 	shape  string
 	lowGas bool
 	nActs  int
+	band   string
 	noAnte bool // fails in ValidateBasic or in the ante handler: sequences do not advance
 }
 
@@ -194,6 +196,8 @@ type c17Gen struct {
 	style  int
 	limits map[uint64]uint64 // gas limits seen at the last observation
 	nActs  map[uint64]int    // number of actions per created trigger
+	cal    *c17Cal
+	band   map[uint64]string // precise-gas triggers: "n=2,k=1" (limit between k and k+1 times one send)
 }
 
 func (g *c17Gen) sym(s string) string {
@@ -220,9 +224,163 @@ func c17NList(xs []int) string {
 
 var c17EventTypes = map[string]bool{"coin_received": true, "coin_spent": true, "transfer": true, "message": true}
 
+// c17Cal is measured once per run on the binary under test.
+type c17Cal struct {
+	cMin, cTyp uint64    // gas of one successful bank send through the router's handler: least over state shapes, typical
+	used       [4]uint64 // gas a precise-shape creation with n actions has consumed when the limit is computed
+}
+
+// c17Calibrate measures (a) what one bank-send action costs when run the way the dispatcher runs it (the
+// router's handler on a context with its own gas meter) for the state shapes that change the cost
+// (receiver without balance, sender left without balance, self send, longer amounts), (b) the overhead of
+// the precise-shape creation, and (c) cross-checks (a) with real one-action triggers around the cost.
+func c17Calibrate(t *testing.T, w *CaseWriter) *c17Cal {
+	n := c17NewNet(t, 5, []int64{100000, 100000, 0, 50, 0})
+	cal := &c17Cal{}
+	measure := func(from, to int, amt int64) uint64 {
+		ctx, _ := n.queryCtx().CacheContext()
+		ctx = ctx.WithGasMeter(storetypes.NewGasMeter(10_000_000))
+		msg := banktypes.NewMsgSend(n.accts[from].addr, n.accts[to].addr, sdk.NewCoins(sdk.NewInt64Coin(c17TrigDen, amt)))
+		if _, err := n.app.MsgServiceRouter().Handler(msg)(ctx, msg); err != nil {
+			t.Fatalf("calibration send: %v", err)
+		}
+		return ctx.GasMeter().GasConsumed()
+	}
+	cal.cTyp = measure(0, 1, 7)
+	cal.cMin = cal.cTyp
+	for _, sh := range [][3]int64{{0, 1, 7}, {0, 2, 7}, {3, 1, 50}, {3, 2, 50}, {0, 0, 7}, {3, 3, 50}, {0, 1, 99999}, {3, 4, 1}, {0, 1, 1}} {
+		if c := measure(int(sh[0]), int(sh[1]), sh[2]); c < cal.cMin {
+			cal.cMin = c
+		}
+	}
+	mk := func(na int, gas uint64) []byte {
+		var msgs []sdk.Msg
+		for i := 0; i < na; i++ {
+			msgs = append(msgs, banktypes.NewMsgSend(n.accts[0].addr, n.accts[1].addr, sdk.NewCoins(sdk.NewInt64Coin(c17TrigDen, 7))))
+		}
+		m := triggertypes.MustNewCreateTriggerRequest([]string{n.accts[0].addr.String()}, &triggertypes.BlockHeightEvent{BlockHeight: uint64(n.height + 3)}, msgs)
+		bz, err := n.signTx(gas, []int{0}, m)
+		if err != nil {
+			t.Fatal(err)
+		}
+		n.pendingSeq[0]++
+		return bz
+	}
+	limits := func() map[uint64]uint64 {
+		out := map[uint64]uint64{}
+		gls, err := n.app.TriggerKeeper.GetAllGasLimits(n.queryCtx())
+		if err != nil {
+			t.Fatal(err)
+		}
+		for _, gl := range gls {
+			out[gl.TriggerId] = gl.Amount
+		}
+		return out
+	}
+	res := n.block(n.now.Add(5*time.Second), [][]byte{mk(1, 400000), mk(2, 400000), mk(3, 400000)})
+	if res == nil {
+		t.Fatalf("calibration block: %v", n.haltErr)
+	}
+	lim := limits()
+	for na := 1; na <= 3; na++ {
+		if res.TxResults[na-1].Code != 0 || lim[uint64(na)] == 0 {
+			t.Fatalf("calibration create %d: %s", na, res.TxResults[na-1].Log)
+		}
+		cal.used[na] = 400000 - 2510 - lim[uint64(na)]
+	}
+	// cross-check with real triggers: one action, limits just below / above the typical cost
+	offs := []int64{-400, -150, 150, 400}
+	var txs [][]byte
+	for _, d := range offs {
+		txs = append(txs, mk(1, cal.used[1]+2510+uint64(int64(cal.cTyp)+d)))
+	}
+	if res = n.block(n.now.Add(5*time.Second), txs); res == nil {
+		t.Fatalf("calibration block: %v", n.haltErr)
+	}
+	lim = limits()
+	okByID := map[uint64]bool{}
+	for i := 0; i < 6; i++ {
+		if res = n.block(n.now.Add(5*time.Second), nil); res == nil {
+			t.Fatalf("calibration block: %v", n.haltErr)
+		}
+		for _, e := range res.Events {
+			if e.Type == "provenance.trigger.v1.EventTriggerExecuted" {
+				idq, _ := c17Attr(e, "trigger_id")
+				id, _ := strconv.ParseUint(strings.Trim(idq, "\""), 10, 64)
+				okS, _ := c17Attr(e, "success")
+				okByID[id] = okS == "true"
+			}
+		}
+	}
+	for i := range offs {
+		id := uint64(4 + i)
+		ok, seen := okByID[id]
+		if !seen {
+			w.Count("calibration_trigger_not_executed")
+			continue
+		}
+		if ok != (lim[id] >= cal.cTyp) {
+			w.Count("calibration_cross_check_disagrees") // the handler measurement does not predict the trigger outcome
+		} else {
+			w.Count("calibration_cross_check_agrees")
+		}
+	}
+	w.CountN("calibrated_send_gas_min", int64(cal.cMin))
+	w.CountN("calibrated_send_gas_typical", int64(cal.cTyp))
+	w.CountN("calibrated_create_overhead_1_action", int64(cal.used[1]))
+	return cal
+}
+
+// planPrecise: one authority, height condition, 1-3 affordable sends, and a gas limit aimed between k and
+// k+1 times the cost of one send (k = 0: not even one action fits ... k > n: everything fits).
+func (g *c17Gen) planPrecise() *c17Plan {
+	r, n := g.r, g.n
+	ctx := n.queryCtx()
+	owner := -1
+	for _, o := range r.Perm(g.nAcc) {
+		if n.app.BankKeeper.GetBalance(ctx, n.accts[o].addr, c17TrigDen).Amount.Int64() >= 300 {
+			owner = o
+			break
+		}
+	}
+	if owner < 0 {
+		return nil
+	}
+	na := 1 + r.Intn(3)
+	k := r.Intn(na + 2)
+	c := int64(g.cal.cTyp)
+	target := int64(k)*c + c/2 + int64(r.Intn(int(c/2))) - c/4
+	h := uint64(n.height+1) + 1 + uint64(r.Intn(3))
+	if g.burstH > uint64(n.height+1) && r.Intn(100) < 40 {
+		h = g.burstH
+	}
+	var msgs []sdk.Msg
+	var acts []string
+	for i := 0; i < na; i++ {
+		to := r.Intn(g.nAcc)
+		amt := int64(1 + r.Intn(9))
+		msgs = append(msgs, banktypes.NewMsgSend(n.accts[owner].addr, n.accts[to].addr, sdk.NewCoins(sdk.NewInt64Coin(c17TrigDen, amt))))
+		acts = append(acts, fmt.Sprintf("{| a_from := %d; a_to := %d; a_amt := %d; a_co := [] |}", owner, to, amt))
+	}
+	gas := g.cal.used[na] + 2510 + uint64(target)
+	m := triggertypes.MustNewCreateTriggerRequest([]string{g.addrStr(owner)}, &triggertypes.BlockHeightEvent{BlockHeight: h}, msgs)
+	bz, err := n.signTx(gas, []int{owner}, m)
+	if err != nil {
+		g.t.Fatalf("sign create: %v", err)
+	}
+	return &c17Plan{kind: "create", bz: bz, gas: gas, shape: "precise-gas", nActs: na, band: fmt.Sprintf("n=%d,k=%d", na, k),
+		coqPre: fmt.Sprintf("TCreate [%d] [%d] (EvHeight %d) %s %d", owner, owner, h, coqList(acts), gas),
+		desc:   fmt.Sprintf("create by [%d] on height>=%d, %d actions, gas %d (limit aimed at %d = %d..%d x one send)", owner, h, na, gas, target, k, k+1)}
+}
+
 // planCreate builds a create-trigger transaction; most are valid.
 func (g *c17Gen) planCreate() *c17Plan {
 	r, n := g.r, g.n
+	if g.cal != nil && r.Intn(100) < 22 {
+		if p := g.planPrecise(); p != nil {
+			return p
+		}
+	}
 	owner := r.Intn(g.nAcc)
 	auths := []int{owner}
 	if r.Intn(4) == 0 {
@@ -634,7 +792,7 @@ func c17Attr(e abci.Event, key string) (string, bool) {
 	return "", false
 }
 
-func c17History(t *testing.T, r *rand.Rand, w *CaseWriter, hi int) {
+func c17History(t *testing.T, r *rand.Rand, w *CaseWriter, hi int, cal *c17Cal) {
 	const nAcc = 5
 	bal := make([]int64, nAcc)
 	for i := range bal {
@@ -646,7 +804,7 @@ func c17History(t *testing.T, r *rand.Rand, w *CaseWriter, hi int) {
 		}
 	}
 	n := c17NewNet(t, nAcc, bal)
-	g := &c17Gen{t: t, r: r, w: w, n: n, nAcc: nAcc, intern: map[string]int{}, style: r.Intn(3)}
+	g := &c17Gen{t: t, r: r, w: w, n: n, nAcc: nAcc, intern: map[string]int{}, style: r.Intn(3), cal: cal, band: map[uint64]string{}}
 	g.nActs = map[uint64]int{}
 	_, _, bal0, _ := g.observe()
 	nBlocks := 5 + r.Intn(26)
@@ -763,6 +921,9 @@ func c17History(t *testing.T, r *rand.Rand, w *CaseWriter, hi int) {
 			} else if prevLimits[id] >= 45000*na {
 				band = "gas-ample"
 			}
+			if bd, has := g.band[id]; has {
+				w.Count("precise:" + bd + ":" + map[bool]string{true: "ok", false: "failed"}[ok])
+			}
 			if ok {
 				w.Count("triggers_executed_ok")
 				w.Count("executed_ok:" + band)
@@ -823,6 +984,9 @@ func c17History(t *testing.T, r *rand.Rand, w *CaseWriter, hi int) {
 					}
 					id = resp.Id
 					g.nActs[id] = p.nActs
+					if p.band != "" {
+						g.band[id] = p.band
+					}
 					if id > g.maxID {
 						g.maxID = id
 					}
@@ -861,7 +1025,7 @@ func c17History(t *testing.T, r *rand.Rand, w *CaseWriter, hi int) {
 	if n.haltErr != nil {
 		ctor = "CHalt"
 	}
-	w.Add(fmt.Sprintf("(%s %s %s\n   %s)%%N", ctor, c17NList(accN), bal0, coqList(blocks)), map[string]any{"history": hi, "blocks": nBlocks, "steps": descs})
+	w.Add(fmt.Sprintf("(%s %s %s %d\n   %s)%%N", ctor, c17NList(accN), bal0, cal.cMin, coqList(blocks)), map[string]any{"history": hi, "blocks": nBlocks, "steps": descs})
 	w.Count("histories")
 	if carried {
 		w.Count("histories_with_carry_over")
@@ -876,8 +1040,9 @@ func TestC17(t *testing.T) {
 	r := newRand("C17")
 	w := NewCaseWriter("C17", "PV.Corr.C17", "check_all", 25)
 	nh := scale(100, 1500)
+	cal := c17Calibrate(t, w)
 	for hi := 0; hi < nh; hi++ {
-		c17History(t, r, w, hi)
+		c17History(t, r, w, hi, cal)
 	}
 	w.Flush(t)
 }
